@@ -8,9 +8,10 @@ package pkgload
 import "golang.org/x/tools/go/packages"
 
 func VerifHarness_C16_LoaderTags() {
-	tags := ""
-	if nondetChoice("hasTags", 2) == 1 {
-		tags = nondetAtom("tags")
+	// any tag list of up to 3 bytes (may contain commas)
+	tags := nondetString("tags", 3)
+	for i := 0; i < len(tags); i++ {
+		verifAssume(tags[i] > ' ')
 	}
 	cwd := nondetAtom("cwd")
 	_, err := New(cwd, tags, []string{"pattern=example.org/in"})
